@@ -32,6 +32,18 @@ mod lemmas {
         kani::assume(!(x > m) && i > m);
         assert!(!(x > i));
     }
+    #[kani::proof]
+    fn nan_add() { let a: f64 = kani::any(); let b: f64 = kani::any(); kani::assume(a.is_nan() || b.is_nan()); assert!((a + b).is_nan()); }
+    #[kani::proof]
+    fn nan_mul() { let a: f64 = kani::any(); let b: f64 = kani::any(); kani::assume(a.is_nan() || b.is_nan()); assert!((a * b).is_nan()); }
+    #[kani::proof]
+    fn nan_div() { let a: f64 = kani::any(); let b: f64 = kani::any(); kani::assume(a.is_nan() || b.is_nan()); assert!((a / b).is_nan()); }
+    #[kani::proof]
+    fn nan_sqrt() { let a: f64 = kani::any(); kani::assume(a.is_nan()); assert!(a.sqrt().is_nan()); }
+    #[kani::proof]
+    fn nan_not_le() { let a: f64 = kani::any(); let b: f64 = kani::any(); kani::assume(a.is_nan()); assert!(!(a <= b)); }
+    #[kani::proof]
+    fn inf_not_le_one() { assert!(!(f64::INFINITY <= 1.0)); }
     /// vacuity guard: a false float claim must be refuted (the engine requires this harness to FAIL)
     #[kani::proof]
     fn vacuity_probe_must_fail() {
